@@ -267,6 +267,13 @@ def catalogue():
                      ('cavity_radius must be positive', lambda P: P['cavity_radius'] > 0),
                      ('pressure_scale must be positive', lambda P: P['pressure_scale'] > 0)],
                     lambda s: False, extra_shim={'warnings': _NoWarn()}))
+    # Blake's elastic parameters ("exactly two of the six moduli", positive-definite material): the constructor obligations of
+    # C15 -- raising paths raise ValueError, returning paths carry a positive-definite material reproducing the two inputs
+    from . import C15
+    for o in C15.obligations('quick'):
+        if '.elastic.' in o.id:
+            o.id = o.id.replace('C15.elastic.', 'C20.ctor.blake.elastic.')
+            obs.append(o)
     return obs
 
 
